@@ -133,7 +133,7 @@ func (c *c17Ctx) cancel() {
 // VerifC17Sema: well-behaved clients and a canceller on a semaphore of every
 // capacity in the bound.
 func VerifC17Sema() {
-	maxCap, clients := 2, 2
+	maxCap, clients := 2, 3
 	if verifrt.Thorough() {
 		maxCap, clients = 3, 3
 	}
@@ -234,7 +234,7 @@ var errC17Cause = errors.New("c17 cause")
 // an explicit cause (WithCancelCause, also as the parent of a derived
 // context): a blocked Acquire returns ctx.Err(), not the cause.
 func VerifC17SemaCause() {
-	n := verifrt.Len(1)
+	n := verifrt.Len(2)
 	sem := NewChanSemaphore(uint(n))
 	for i := 0; i < n; i++ {
 		verifrt.Assert(sem.Acquire(context.Background()) == nil, "Acquire with a free slot failed")
@@ -254,6 +254,12 @@ func VerifC17SemaCause() {
 	err := sem.Acquire(ctx)
 	verifrt.Assert(err != nil, "Acquire succeeded although no slot is free and the context is done")
 	verifrt.Assert(err == ctx.Err() && err == context.Canceled, "Acquire did not return the context's error")
+	// a failed Acquire neither takes nor frees a slot: all n are still held,
+	// so a further Acquire (whichever ready case its select picks) fails too
+	verifrt.Assert(len(sem.c) == n, "a failed Acquire changed the number of held slots")
+	err = sem.Acquire(ctx)
+	verifrt.Assert(err != nil, "Acquire succeeded on a full semaphore after a failed Acquire: more holders than the capacity")
+	verifrt.Assert(len(sem.c) == n, "a failed Acquire changed the number of held slots")
 	sem.Release()
 	verifrt.Cover("done")
 }
